@@ -12,7 +12,7 @@ LEVEL = "exploration"
 def run(res):
     quick = res.tier == "quick"
     shards = 2 if quick else 16
-    per = 500_000 if quick else 4_000_000
+    per = 500_000 if quick else 40_000_000
     outs = pmap(lambda i: inproc.check(res, "fsm", ["--seed", res.seed * 1000 + i, "--random", per], "fsm", "FSM product / random histories"), range(shards))
     outs = [o for o in outs if o]
     if not outs:
